@@ -28,7 +28,7 @@ def wide_frame_jobs(chk, tier, seed, rng):
     loops), the same with one segment removed (open paths) or added, judged by TLC (Trace_Patterns, frame mode)"""
     from harness.common import write_ndjson
     from harness.tlc import run_tlc, MachineryError
-    shapes = [(2, 3), (3, 2), (6, 7)] if tier == "quick" else [(2, 3), (3, 2), (2, 4), (4, 2), (3, 3), (6, 7), (7, 6)]
+    shapes = [(2, 3), (3, 2), (3, 3), (4, 4), (6, 7)] if tier == "quick" else [(2, 3), (3, 2), (2, 4), (4, 2), (3, 3), (4, 4), (4, 5), (6, 7), (7, 6)]
     recs, objs = [], {}
     for (h, w) in shapes:
         g = lattice(h, w)
@@ -54,7 +54,23 @@ def wide_frame_jobs(chk, tier, seed, rng):
                 pats.add(a ^ b)
         pats = sorted((sorted(p) for p in pats if p), key=lambda p: (len(p), p))
         rng.shuffle(pats)
-        pats = pats[: 120 if tier == "quick" else 1500]
+        pats = pats[: (120 if h * w <= 6 else 40) if tier == "quick" else 1500]
+        # weaves: the outlines of the cells of one colour of a checkerboard, added up (every interior point of the
+        # drawing is a 4-way point), whole and with one cell left out
+        unit = {}
+        for r in rects:
+            pass
+        for colour in (0, 1):
+            cells = [(y, x) for y in range(h) for x in range(w) if (y + x) % 2 == colour]
+            for leave in [None] + cells[:3]:
+                acc = frozenset()
+                for (y, x) in cells:
+                    if (y, x) == leave:
+                        continue
+                    acc = acc ^ frozenset([index[(y * (w + 1) + x, y * (w + 1) + x + 1)], index[((y + 1) * (w + 1) + x, (y + 1) * (w + 1) + x + 1)],
+                                           index[(y * (w + 1) + x, (y + 1) * (w + 1) + x)], index[(y * (w + 1) + x + 1, (y + 1) * (w + 1) + x + 1)]])
+                if acc:
+                    pats.append(sorted(acc))
         if h * w > 20:
             # scale-up frame (its auxiliary graph has more than 256 nodes): a few drawings, plus far-apart strands
             m = len(g["edges"])
@@ -87,7 +103,24 @@ def wide_frame_jobs(chk, tier, seed, rng):
     chk.extra["wide_frame_patterns"] = len(recs)
     chk.extra["wide_frame_patterns_admitted"] = sum(1 for v in verdict.values() if v["ok"])
     chk.traces += len(recs)
-    return jobs
+    # the native-primitive route on the same drawings (frames of at most 9 cells): the emitted program is judged by
+    # Trace_Emit on the listed patterns (plist)
+    ejobs = []
+    for (h, w) in shapes:
+        if h * w > 9:
+            continue
+        for cyc in (False, True):
+            rs = [r for r in recs if (r["h"], r["w"], r["cyc"]) == (h, w, cyc)]
+            # drawings with 4-way points first (that is where the crossable encoding differs from a plain cycle)
+            rs.sort(key=lambda r: (-len(verdict[r["t"]]["cross"]), r["t"]))
+            rs = rs[: (40 if h * w <= 6 else 10) if tier == "quick" else 400]
+            mask = lambda pts: sum(1 << q for q in pts)
+            ejobs.append({"obj": objs[(h, w)], "id": 60000 + len(ejobs), "single_cycle": cyc, "alias": False,
+                          "plist": [sum(1 << (k - 1) for k in r["active"]) for r in rs],
+                          "expects": [verdict[r["t"]]["ok"] for r in rs],
+                          "passed": [mask(verdict[r["t"]]["passed"]) for r in rs],
+                          "cross": [mask(verdict[r["t"]]["cross"]) for r in rs]})
+    return jobs, ejobs
 
 
 def run(tier, seed):
@@ -111,7 +144,9 @@ def run(tier, seed):
             zjobs.append(dict(base, patterns=ps, expects=[r["ok"][p] for p in ps],
                               passed=[r["passed"][p] for p in ps], cross=[r["cross"][p] for p in ps]))
         ejobs.append(dict(base, expects=r["ok"], passed=r["passed"], cross=r["cross"]))
-    zjobs += wide_frame_jobs(chk, tier, seed, rng)
+    wz, we = wide_frame_jobs(chk, tier, seed, rng)
+    zjobs += wz
+    ejobs += we
     results = GC.pmap(GR.run_cross, zjobs)
     for job, mism in zip(zjobs, results):
         m = len(job["obj"]["graph"]["edges"])
@@ -131,9 +166,11 @@ def run(tier, seed):
     erecs = []
     for t, (job, e) in enumerate(zip(ejobs, emitted)):
         e.update({"t": t, "expects": job["expects"]})
+        if "plist" in job:
+            e["plist"] = job["plist"]
         erecs.append(e)
     def cross_jobs(j):
-        ps = list(range(len(j["expects"])))
+        ps = j.get("plist") or list(range(len(j["expects"])))
         return [dict(j, prim=True, patterns=ps[i:i + 48], expects=j["expects"][i:i + 48], passed=j["passed"][i:i + 48],
                      cross=j["cross"][i:i + 48]) for i in range(0, len(ps), 48)]
     verdicts = GC.judge_emits(chk, erecs, jobs=ejobs, fallback=(GR.run_cross, cross_jobs))
@@ -145,7 +182,8 @@ def run(tier, seed):
                            "single_cycle": job["single_cycle"]},
                           f"native-primitive program of the crossable constraint: {v['verdict']} (first bad pattern {v['pattern']}, {v['nbad']} bad)",
                           {"obj": job["obj"], "single_cycle": job["single_cycle"], "emit": True,
-                           "pattern": v["pattern"], "nbad": v["nbad"]})
+                           "pattern": job["plist"][v["pattern"]] if "plist" in job and v["pattern"] >= 0 else v["pattern"],
+                           "nbad": v["nbad"]})
     r = recs[-1]
     chk.sample({"obj": r["obj"], "single_cycle": r["single_cycle"], "admitted_patterns": [p for p in range(len(r["ok"])) if r["ok"][p]][:10]})
     chk.rule = "case = (frame, single_cycle, encoding, segment subset); non-trivial = at least 2 active segments"
